@@ -54,7 +54,9 @@ func randSched(r *Rand) *SchedSpec {
 }
 
 func randSchedBase(r *Rand) *SchedSpec {
-	switch r.Intn(6) {
+	switch r.Intn(7) {
+	case 6:
+		return &SchedSpec{Strategy: "locks", Seed: r.Uint64() >> 16}
 	case 0:
 		return &SchedSpec{Strategy: "serial", Seed: r.Uint64() >> 16}
 	case 1:
